@@ -599,6 +599,30 @@ impl RefHistory {
         self.norm();
         true
     }
+    /// Component-level observation: `next_older` / `next_newer` returned `ret`.
+    /// Line(x) <-> Some(x) for non-empty x; "nothing changes" and "past the newest" <-> None.
+    pub fn navigate_ret(&mut self, up: bool, ret: Option<&[u8]>) -> bool {
+        let mut out = Vec::new();
+        for s in &self.states {
+            for (shown, ns) in Self::step(s, up) {
+                let ok = match (&shown, ret) {
+                    (Shown::Unchanged, None) => true,
+                    (Shown::Line(l), None) => l.is_empty(),
+                    (Shown::Line(l), Some(r)) => !l.is_empty() && l.as_slice() == r,
+                    (Shown::Unchanged, Some(_)) => false,
+                };
+                if ok {
+                    out.push(ns);
+                }
+            }
+        }
+        if out.is_empty() {
+            return false;
+        }
+        self.states = out;
+        self.norm();
+        true
+    }
     /// what the allowed states would show (for diagnostics)
     pub fn expected(&self, up: bool) -> Vec<Shown> {
         let mut v = Vec::new();
